@@ -8,18 +8,26 @@ package main
 // c03.uroute: the server's packet as the client really receives it, after the framing layer and with the
 // transport's own look at the msg_id). Oracle: the specification's server of x_envelope.go
 // (envOpen direction 0 judges what the client sealed; envSeal direction 8 produces what the client
-// must open). c03.par: several clients of one process sealing and opening at the same time, every packet
+// must open). c03.session: ONE transport (one loopback connection) reading a sequence of conformant server
+// packets — the property is per packet, whatever the transport read before: a server sends a message
+// again while it is unacknowledged (the same packet twice in a row, again later), and may seal the same
+// msg_id anew (another padding, another body in a container re-send). c03.par: several clients of one process sealing and opening at the same time, every packet
 // judged by the same server (calls must not disturb one another: the property is per call).
 
 import (
 	"bytes"
+	"context"
 	"encoding/binary"
 	"fmt"
+	"io"
 	"strings"
 	"sync"
+	"time"
 
 	ige "github.com/xelaj/mtproto/internal/aes_ige"
+	"github.com/xelaj/mtproto/internal/mode"
 	"github.com/xelaj/mtproto/internal/mtproto/messages"
+	"github.com/xelaj/mtproto/internal/transport"
 	"github.com/xelaj/mtproto/internal/utils"
 )
 
@@ -124,6 +132,11 @@ func c03Exec1(op []string) string {
 			return "bad-op"
 		}
 		return envRoute(nil, c03SpecUnenc(envU64(op[1]), envTok(op[2])))
+	case "c03.session":
+		if len(op) < 3 {
+			return "bad-op"
+		}
+		return c03Session(envTok(op[1]), op[2:])
 	case "c03.par":
 		if len(op) != 5 {
 			return "bad-op"
@@ -153,6 +166,134 @@ func c03Exec1(op []string) string {
 		return c03Unenc(b)
 	}
 	return "bad-op"
+}
+
+// ---- one transport, many packets ---------------------------------------------------------------------
+//
+//   c03.session <key> <step> <step> …     step = e:<salt>:<sid>:<msg_id>:<seq_no>:<padding>:<body>   (sealed by the
+//                                                 specification's server, direction 8, under <key>)
+//                                              | u:<msg_id>:<body>                                  (unencrypted)
+// One transport for the whole line; the peer writes a packet only when the client is about to read it.
+// The results of the steps are joined with " ; "; each step is judged as a c03.route / c03.uroute of its own.
+
+type c03Step struct {
+	enc  bool
+	m    envMsg
+	pad  []byte
+	good bool
+}
+
+func c03ParseStep(t string) (st c03Step) {
+	p := strings.Split(t, ":")
+	switch {
+	case len(p) >= 7 && p[0] == "e":
+		st.enc, st.good = true, true
+		st.m = envMsg{Salt: envU64(p[1]), Sid: envU64(p[2]), Mid: envU64(p[3]), Seq: uint32(envU64(p[4])), Body: envTok(strings.Join(p[6:], ":"))}
+		st.pad = envTok(p[5])
+	case len(p) >= 3 && p[0] == "u":
+		st.good = true
+		st.m = envMsg{Mid: envU64(p[1]), Body: envTok(strings.Join(p[2:], ":"))}
+	}
+	return st
+}
+
+func c03StepPacket(key []byte, st c03Step) []byte {
+	if st.enc {
+		return envSeal(8, key, st.m, st.pad)
+	}
+	return c03SpecUnenc(st.m.Mid, st.m.Body)
+}
+
+// c03Routed prints what ReadMsg returned (as x_envelope.go's envRoute does for its single packet); alive:
+// the transport can be read again.
+func c03Routed(msg messages.Common, err error) (res string, alive bool) {
+	if err != nil {
+		if code, ok := err.(transport.ErrCode); ok {
+			return fmt.Sprintf("code:%d", int(code)), true
+		}
+		s := err.Error()
+		if !strings.HasPrefix(s, "parsing message") {
+			if strings.HasPrefix(s, "wrong bits of message_id") {
+				return "err:parity2", true
+			}
+			e := strings.ToLower(s)
+			broken := strings.Contains(e, "eof") || strings.Contains(e, "closed") || strings.Contains(e, "timeout") || strings.Contains(e, "reset")
+			return "err:transport(" + strings.ReplaceAll(s, " ", "_") + ")", !broken
+		}
+		if strings.Contains(s, "Wrong bits of message_id") || strings.Contains(s, "not equal defined size") {
+			return envUnencErr(err), true
+		}
+		return envOpenErr(err), true
+	}
+	switch m := msg.(type) {
+	case *messages.Encrypted:
+		return "enc " + envShowMsg(envOfEncrypted(m)), true
+	case *messages.Unencrypted:
+		return fmt.Sprintf("unenc mid=%d body=%s", uint64(m.MsgID), showBytes(m.Msg)), true
+	}
+	return "err:unknown-type", true
+}
+
+func c03Session(key []byte, steps []string) string {
+	var sts []c03Step
+	for _, t := range steps {
+		st := c03ParseStep(t)
+		if !st.good {
+			return "bad-op"
+		}
+		sts = append(sts, st)
+	}
+	next := make(chan []byte)
+	done := make(chan struct{})
+	go func() {
+		defer close(done)
+		conn, err := envListener.Accept()
+		if err != nil {
+			for range next {
+			}
+			return
+		}
+		ann := make([]byte, 4)
+		_, _ = io.ReadFull(conn, ann)
+		for pkt := range next {
+			frame := make([]byte, 4, 4+len(pkt))
+			binary.LittleEndian.PutUint32(frame, uint32(len(pkt)))
+			_, _ = conn.Write(append(frame, pkt...))
+		}
+		_ = conn.Close()
+	}()
+	ctx, cancel := context.WithCancel(context.Background())
+	defer cancel()
+	t, err := transport.NewTransport(envInformator{key: key}, transport.TCPConnConfig{
+		Ctx: ctx, Host: envListener.Addr().String(), Timeout: 10 * time.Second,
+	}, mode.Intermediate)
+	if err != nil {
+		close(next)
+		<-done
+		return "dial-error:" + err.Error()
+	}
+	defer func() { close(next); t.Close(); <-done }()
+	var outs []string
+	alive := true
+	for _, st := range sts {
+		if !alive {
+			outs = append(outs, "err:transport(dead)")
+			continue
+		}
+		next <- c03StepPacket(key, st)
+		var res string
+		func() {
+			defer func() {
+				if r := recover(); r != nil {
+					res, alive = "panic:"+panicSite(), false
+				}
+			}()
+			msg, err := t.ReadMsg()
+			res, alive = c03Routed(msg, err)
+		}()
+		outs = append(outs, res)
+	}
+	return strings.Join(outs, " ; ")
 }
 
 // c03Par: `workers` clients of one process, each with its own auth key, salt, session and message
@@ -358,6 +499,41 @@ func c03Judge(op []string, out string) string {
 		if exp := fmt.Sprintf("unenc mid=%d body=%s", mid, showBytes(body)); out != exp {
 			return "the unencrypted message of a conformant server does not come out of transport.ReadMsg: want " + exp
 		}
+	case "c03.session":
+		if strings.Contains(out, "panic:") {
+			return "receiving a sequence of server packets on one transport panics: " + clip(out)
+		}
+		if strings.HasPrefix(out, "dial-error") {
+			return "loopback transport failed: " + clip(out)
+		}
+		if len(envTok(op[1])) != 256 {
+			return ""
+		}
+		outs := strings.Split(out, " ; ")
+		if len(outs) != len(op)-2 {
+			return fmt.Sprintf("%d results for %d packets: %s", len(outs), len(op)-2, clip(out))
+		}
+		for i, t := range op[2:] {
+			st := c03ParseStep(t)
+			conformant := st.m.Mid%4 == 1 || st.m.Mid%4 == 3
+			if st.enc && len(st.pad) >= 16 {
+				continue
+			}
+			if !conformant {
+				if strings.HasPrefix(outs[i], "enc ") || strings.HasPrefix(outs[i], "unenc ") {
+					return fmt.Sprintf("packet %d of %d on one transport: a msg_id without server parity was accepted by ReadMsg", i+1, len(outs))
+				}
+				continue
+			}
+			want := "enc " + envShowMsg(st.m)
+			if !st.enc {
+				want = fmt.Sprintf("unenc mid=%d body=%s", st.m.Mid, showBytes(st.m.Body))
+			}
+			if outs[i] != want {
+				return fmt.Sprintf("packet %d of %d read by ONE transport (%s): the packet a conformant server sealed does not come out of transport.ReadMsg with its content: got %s want %s",
+					i+1, len(outs), c03History(op[2:], i), clip(outs[i]), clip(want))
+			}
+		}
 	case "c03.par":
 		if !strings.HasPrefix(out, "par ok ") {
 			return "clients of one process working at the same time disturb one another: " + clip(out)
@@ -410,6 +586,26 @@ func c03Judge(op []string, out string) string {
 		}
 	}
 	return ""
+}
+
+// c03History says how step i relates to the packets read before it on the same transport.
+func c03History(steps []string, i int) string {
+	cur := c03ParseStep(steps[i])
+	for j := i - 1; j >= 0; j-- {
+		p := c03ParseStep(steps[j])
+		if p.m.Mid != cur.m.Mid {
+			continue
+		}
+		what := "the same msg_id, sealed anew,"
+		if steps[j] == steps[i] {
+			what = "the same packet"
+		}
+		if j == i-1 {
+			return what + " as the packet read just before"
+		}
+		return fmt.Sprintf("%s as packet %d, %d other packets in between", what, j+1, i-1-j)
+	}
+	return "a msg_id not seen before on this transport"
 }
 
 // ---- generation -----------------------------------------------------------------------------------
@@ -539,6 +735,10 @@ func c03Gen(g *G) {
 		mid = c03ServerMid(g)
 		g.Emit(fmt.Sprintf("c03.uroute %d %s", mid, c03BodyTok(g, 1+r.Intn(300))), "uroute", "random", fmt.Sprintf("uroute-mid-top-bit=%d", mid>>63))
 	}
+	// (b2') one transport reading a sequence of server packets: messages sent again (at once, later, several
+	// times), the same msg_id sealed anew (other padding / body / seq_no / salt), new messages in between,
+	// encrypted and unencrypted mixed; short fixed shapes first, then random walks
+	c03GenSessions(g)
 	// special keys; padding of 16 and more bytes (not conformant; model and code must still agree)
 	for _, k := range []string{"z256", "p256"} {
 		g.Emit(fmt.Sprintf("c03.seal %s 0 0 0 0 0 -", k), "seal-edge", "edge=key")
@@ -601,6 +801,56 @@ func c03Gen(g *G) {
 	for i := 0; i < g.N(40, 400); i++ {
 		b := c03SpecUnenc(c03ServerMid(g), r.Bytes(r.Intn(64)))
 		g.Emit("c03.udeser "+hexD(b), "unenc-deserialize")
+	}
+}
+
+func c03EncStep(g *G, mid uint64) string {
+	l := g.R.Intn(40)
+	if g.R.Intn(6) == 0 {
+		l = g.R.Intn(600)
+	}
+	return fmt.Sprintf("e:%d:%d:%d:%d:%s:%s", c03U64(g), c03U64(g), mid, c03Seq(g), c03PadFor(g, l), c03BodyTok(g, l))
+}
+
+func c03GenSessions(g *G) {
+	r := g.R
+	emit := func(steps []string, tags ...string) {
+		g.Emit("c03.session "+c03KeyTok(g)+" "+strings.Join(steps, " "), append(tags, "session")...)
+	}
+	for rep := 0; rep < g.N(3, 20); rep++ {
+		a, b, c := c03EncStep(g, c03ServerMid(g)), c03EncStep(g, c03ServerMid(g)), c03EncStep(g, c03ServerMid(g))
+		am := c03ParseStep(a).m.Mid
+		a2 := c03EncStep(g, am) // the same msg_id sealed anew: other salt/session/seq_no/body/padding
+		emit([]string{a, b, c}, "session-distinct")
+		emit([]string{a, a}, "session-resent-at-once")
+		emit([]string{a, a, a, b}, "session-resent-at-once")
+		emit([]string{a, a2}, "session-same-id-other-content")
+		emit([]string{a, b, a}, "session-resent-later")
+		emit([]string{a, b, c, a, b, b, a2, c}, "session-resent-later", "session-resent-at-once")
+		u := fmt.Sprintf("u:%d:%s", c03ServerMid(g), c03BodyTok(g, 1+r.Intn(40)))
+		ua := fmt.Sprintf("u:%d:%s", am, c03BodyTok(g, 1+r.Intn(40)))
+		emit([]string{u, u, a, ua, a, u}, "session-unencrypted-mixed")
+	}
+	for i := 0; i < g.N(60, 800); i++ {
+		n := 2 + r.Intn(10)
+		var steps []string
+		for k := 0; k < n; k++ {
+			switch c := r.Intn(10); {
+			case k > 0 && c < 2: // the packet read just before, again
+				steps = append(steps, steps[k-1])
+			case k > 0 && c < 4: // an earlier packet again
+				steps = append(steps, steps[r.Intn(k)])
+			case k > 0 && c < 6: // the msg_id of an earlier packet, sealed anew
+				steps = append(steps, c03EncStep(g, c03ParseStep(steps[r.Intn(k)]).m.Mid))
+			case c == 6:
+				steps = append(steps, fmt.Sprintf("u:%d:%s", c03ServerMid(g), c03BodyTok(g, 1+r.Intn(40))))
+			case c == 7 && r.Intn(3) == 0: // not a server's msg_id: refused, and the transport goes on
+				steps = append(steps, c03EncStep(g, c03U64(g)&^3|uint64(r.Pick(0, 2))))
+			default:
+				steps = append(steps, c03EncStep(g, c03ServerMid(g)))
+			}
+		}
+		emit(steps, "session-random")
 	}
 }
 
